@@ -11,7 +11,8 @@
    switch, if, let, print. *)
 From Soy Require Import Model.Bytes Model.Num Model.Values Model.Outcome Model.Ast
   Model.Escape Model.Interp Spec.Expr Spec.Cmd Spec.CmdIndep Proofs.ScopeRel Proofs.ScopeProofs Proofs.ScopeSpecProofs
-  Proofs.ScopeIndepProofs Proofs.ScopeIndepBridge.
+  Proofs.ScopeIndepProofs Proofs.ScopeIndepBridge
+  Model.Token Model.Parser Model.Compile Spec.CallNames Proofs.CompilePermProofs Proofs.ScopeNames Proofs.ScopeRegistry.
 Open Scope N_scope.
 
 (* ------------------------------------------------------------------ *)
@@ -140,6 +141,95 @@ Proof. exact ScopeSpecProofs.caller_env_restored. Qed.
 Print Assumptions caller_env_restored.
 
 (* ------------------------------------------------------------------ *)
+(* which template a call denotes: same-namespace (.x), aliased and fully
+   qualified names.  The resolution happens in the parser (Model/Parser.v,
+   parse_call / parse_alias / parse_template, tied to parse/parse.go by the
+   parser harnesses and by this property's resolve_name check) and in
+   Registry.Add (Model/Compile.v registry_add, tied by C13's harness); the
+   walker only looks the resolved name up.  Spec/CallNames.v says what the
+   language defines; these theorems say the parser and the registry do that,
+   for every token stream / every list of files. *)
+
+(* the parser's resolution function computes the Spec's relation, which is a function *)
+Theorem call_name_resolution : forall s written,
+  resolves (c_ns s) (c_al s) written (resolve_name s written) /\
+  (forall full, resolves (c_ns s) (c_al s) written full -> resolve_name s written = full).
+Proof. intros s written. split; [apply resolve_name_spec | apply resolve_name_complete]. Qed.
+Print Assumptions call_name_resolution.
+
+(* whatever {call ...} parses to carries the written name (before the attributes, or name="...")
+   resolved against the namespace and aliases in force where the call stands *)
+Theorem call_node_name_resolved : forall inlen unq lexq pexpr efuel pe w lf token s n s',
+  parse_call inlen lexq unq pexpr efuel pe w lf token s = Parser.COk n s' ->
+  exists name0 s1 attrs s2 full alldata dat params,
+    call_name lf s = Parser.COk name0 s1 /\
+    attrs_loop inlen unq lf [k_name; k_data] [] s1 = Parser.COk attrs s2 /\
+    written_name name0 attrs <> [] /\
+    resolves (c_ns s) (c_al s) (written_name name0 attrs) full /\
+    n = NCall (t_pos token) full alldata dat params.
+Proof. exact parse_call_resolves. Qed.
+Print Assumptions call_node_name_resolved.
+
+(* {alias a.b.c} puts c -> a.b.c in front of the aliases and leaves the namespace alone *)
+Theorem alias_binds_last_segment : forall inlen f s s',
+  parse_alias inlen f s = Parser.COk tt s' ->
+  exists first segs, c_ns s' = c_ns s /\ c_al s' = (alias_key first segs, alias_target first segs) :: c_al s.
+Proof. exact parse_alias_binds. Qed.
+Print Assumptions alias_binds_last_segment.
+
+(* {template .x} is named namespace + .x (the namespace in force at its end tag; that a second
+   {namespace} is a parse error is parse_namespace's first clause) *)
+Theorem template_node_name : forall inlen unq w lf token s n s',
+  parse_template inlen unq w lf token s = Parser.COk n s' ->
+  exists id body ae priv, n = NTemplate (t_pos token) (declared_name (c_ns s') (t_val id)) body ae priv.
+Proof. exact parse_template_name. Qed.
+Print Assumptions template_node_name.
+
+(* Bundle.Compile's loop over the files: the lookup of a name finds exactly the templates the
+   files declare, and names are unique *)
+Theorem registry_lookup_exact : forall srcs r, add_all_files empty_creg srcs = COk r ->
+  exists fs, srcs = map SrcOk fs /\ NoDup (map t_name (all_ts fs)) /\
+    forall name t, find_template (r_templates (cr_reg r)) name = Some t <-> (In t (all_ts fs) /\ t_name t = name).
+Proof. exact ScopeRegistry.registry_lookup_exact. Qed.
+Print Assumptions registry_lookup_exact.
+
+Theorem declared_template_found : forall srcs r, add_all_files empty_creg srcs = COk r ->
+  forall f l1 p name body ae priv l2,
+  In (SrcOk f) srcs -> sfile_body f = l1 ++ NTemplate p name body ae priv :: l2 ->
+  exists t lp nodes,
+    body = NList lp nodes /\
+    find_template (r_templates (cr_reg r)) name = Some t /\
+    t_name t = name /\ t_node t = NTemplate p name (NList lp (snd (span_headers nodes))) ae priv /\
+    find_namespace (sfile_body f) = inr (t_ns_name t, t_ns_autoescape t) /\ t_file t = sfile_name f.
+Proof. exact ScopeRegistry.declared_template_found. Qed.
+Print Assumptions declared_template_found.
+
+Theorem found_template_declared : forall srcs r, add_all_files empty_creg srcs = COk r ->
+  forall name t, find_template (r_templates (cr_reg r)) name = Some t ->
+  exists f l1 p lp nodes ae priv l2,
+    In (SrcOk f) srcs /\ sfile_body f = l1 ++ NTemplate p name (NList lp nodes) ae priv :: l2 /\
+    t_node t = NTemplate p name (NList lp (snd (span_headers nodes))) ae priv /\
+    find_namespace (sfile_body f) = inr (t_ns_name t, t_ns_autoescape t) /\ t_file t = sfile_name f.
+Proof. exact ScopeRegistry.found_template_declared. Qed.
+Print Assumptions found_template_declared.
+
+(* end to end on the Spec side: a call whose resolved name is that of a {template} tag of some file
+   of the bundle runs that tag's body (header params taken out) in the callee environment, under the
+   autoescape mode of the namespace of the CALLEE's file *)
+Theorem call_runs_declared_template : forall cf srcs r f l1 p name body ae priv l2 l entry md en pc alldata dat params,
+  add_all_files empty_creg srcs = COk r -> c_reg cf = cr_reg r ->
+  In (SrcOk f) srcs -> sfile_body f = l1 ++ NTemplate p name body ae priv :: l2 ->
+  exists lp nodes ns nsae,
+    body = NList lp nodes /\ find_namespace (sfile_body f) = inr (ns, nsae) /\
+    exec_body cf l entry md en (NCall pc name alldata dat params) =
+    (base <~~ base_spec l entry en alldata dat ;;
+     ps <~~ params_spec l entry md en params [] ;;
+     l_exec l (ps ++ base) (ps ++ base) (call_mode nsae)
+            (NTemplate p name (NList lp (snd (span_headers nodes))) ae priv)).
+Proof. exact ScopeRegistry.call_runs_declared_template. Qed.
+Print Assumptions call_runs_declared_template.
+
+(* ------------------------------------------------------------------ *)
 (* non-vacuity: a bundle with a let that shadows a param inside an {if},
    data="all" from under that let, a foreach whose variable shadows the same
    param, a call with an explicit param computed from index($a).
@@ -198,3 +288,24 @@ Example C02_example_fuel :
   sr_outcome (render_spec ex_cf 3 (b "ns.t0") ex_data 1000) = OutOfFuel /\
   rr_outcome (render ex_cf 3 (b "ns.t0") 2 ex_data None None 1000) = OutOfFuel.
 Proof. vm_compute. split; reflexivity. Qed.
+
+(* call names: file 1 = namespace a.b, {alias x.y.c}, template .t0 ; file 2 = namespace x.y.c, template .t1 *)
+Definition ex_st : cst := add_alias (set_ns (cst_init []) (b "a.b")) (b "c") (b "x.y.c").
+Example C02_example_resolve :
+  resolve_name ex_st (b ".t1") = b "a.b.t1" /\ resolve_name ex_st (b "c.t1") = b "x.y.c.t1" /\
+  resolve_name ex_st (b "x.y.c.t1") = b "x.y.c.t1" /\ resolve_name ex_st (b "q.t1") = b "q.t1" /\
+  alias_key (b "x") [b ".y"; b ".c"] = b "c" /\ alias_target (b "x") [b ".y"; b ".c"] = b "x.y.c".
+Proof. vm_compute. repeat split; reflexivity. Qed.
+Definition ex_f1 : sfile :=
+  {| sfile_name := b "f1.soy"; sfile_text := [];
+     sfile_body := [NNamespace 0 (b "a.b") 0; NSoyDoc 0 [];
+                    NTemplate 0 (b "a.b.t0") (NList 0 [NCall 0 (b "x.y.c.t1") false None []]) 0 false] |}.
+Definition ex_f2 : sfile :=
+  {| sfile_name := b "f2.soy"; sfile_text := [];
+     sfile_body := [NNamespace 0 (b "x.y.c") 2; NSoyDoc 0 [];
+                    NTemplate 0 (b "x.y.c.t1") (NList 0 [NHeaderParam 0 false ex_a (b "?") None; NPrint 0 ex_ref []]) 0 false] |}.
+Example C02_example_registry :
+  exists r, add_all_files empty_creg [SrcOk ex_f1; SrcOk ex_f2] = COk r /\
+    option_map (fun t => (t_ns_autoescape t, t_params t, t_node t)) (find_template (r_templates (cr_reg r)) (b "x.y.c.t1")) =
+    Some (2, [(ex_a, false)], NTemplate 0 (b "x.y.c.t1") (NList 0 [NPrint 0 ex_ref []]) 0 false).
+Proof. eexists. split; vm_compute; reflexivity. Qed.
